@@ -10,6 +10,7 @@
   the allocator: a refused request is one of the ways a call may fail (leaving everything unchanged).
 -/
 import JsonC.Lemmas.Arraylist
+import JsonC.Lemmas.TranslatedAl
 
 namespace JsonC.Arraylist
 open JsonC Generated
